@@ -107,10 +107,11 @@ Definition label_of_Z (z : Z) : label :=
 Definition all_gameplay (s : state) : bool :=
   forallb (fun '(_, t) => match t with Gameplay => true | Audio => false end) (st_destroyed s).
 
+(** what the harness can observe at the end of a schedule it replayed with the yield hook: the
+    reported count, the number of successful creates, of completed callbacks, of destroyed payloads,
+    and whether all of them were destroyed by the gameplay thread *)
 Definition summary (s : state) : list Z :=
-  [zn (res_len s); zn (length (aorder (st_ar s))); zn (length (st_newq s)); zn (length (st_unused s));
-   zn (st_created s); zn (st_removed s); zn (st_callbacks s); zn (length (st_destroyed s));
-   match st_inflight s with Some _ => 1%Z | None => 0%Z end;
+  [zn (res_len s); zn (st_created s); zn (st_callbacks s); zn (length (st_destroyed s));
    if all_gameplay s then 1%Z else 0%Z].
 
 Definition run (c : case) : list Z :=
